@@ -647,6 +647,38 @@ class RecalcFam:
                 "exhaustive": False, "spec_invariants": ["CircOnlyOnCycles", "SpillsExact"], "no_verdict": r.get("no_verdict", 0), "variants_rebuilt": r.get("variants_rebuilt", 0), "tlc": res["tlc"]}
 
 
+class ClipboardFam:
+    PROPS = ["C16"]
+    ASSUMPTIONS = ["the workbook of Structural.tla (see C12) with its 9 formulas, 12 re-entry-sensitive literals, bold cells, links and a defined name",
+                   "actions: cut or copy each of 8 areas of sheet 1 (single cells holding a formula / a referenced number / a linked cell, a 2x2 block that holds a whole referenced range, blocks that cut through ranges, a row segment, a column segment) and paste at 5 targets (same sheet far away, same sheet overlapping other content, sheet 2 on empty cells, sheet 2 over content, next to the area)",
+                   "cut: cells, styles and links arrive unchanged; every reference (cells, ranges wholly inside the area, the defined name) follows the moved cells, references that only partly meet the area or meet the overwritten target are left open, untouched formulas keep their values; copy: every pasted formula is the source formula with its relative parts shifted by the paste offset (off-grid -> #REF!), ranges re-normalised top-left : bottom-right, implicit sheet = the sheet pasted on; links and conditional formats after a copy are not judged",
+                   "one paste per behaviour"]
+
+    @staticmethod
+    def run(d, tier, seed):
+        res = {"violations": {"C16": []}}
+        cfg = open(os.path.join(SPEC, "Clipboard.cfg")).read()
+        out, st, dt = run_tlc("Structural.tla", cfg, d, "clipboard", workers=8, timeout=1500)
+        path = os.path.join(d, "beh.ndjson")
+        n = cases_from(out, path, tag="BEHAVIOUR")
+        if n == 0:
+            raise ToolError("Structural.tla (clipboard mode) printed no behaviours")
+        rr, dt2 = icverif(["structural", "--in", path, "--out", os.path.join(d, "out"), "--prop", "C16"], timeout=3400)
+        os.remove(path)
+        res["tlc"] = {"states": st["distinct"], "transitions": st["generated"], "seconds": round(dt, 1), "behaviours": n}
+        res["run"] = rr
+        collect(res, "C16", os.path.join(d, "out", "mismatches.ndjson"))
+        return res
+
+    @staticmethod
+    def evidence_for(prop, res):
+        r = res["run"]
+        return {"states": res["tlc"]["states"], "transitions": res["tlc"]["transitions"], "traces_validated_against_impl": r["cases"],
+                "samples": r["samples"][:3] or [{"note": "no sample"}], "evaluations": r["checks"], "distinct_nontrivial": r["distinct_nontrivial"],
+                "rule": "every cut / copy behaviour of Structural.tla (Mode = clipboard) replayed through UserModel copy_to_clipboard + paste_from_clipboard; cells, references (read with the engine's parser), preserved values, links (cut) and the defined name compared with the spec state.",
+                "exhaustive": True, "no_verdict": r.get("no_verdict", 0)}
+
+
 def replay_case(prop, path):
     with open(path) as f:
         payload = json.load(f)
@@ -668,6 +700,7 @@ def _wrap(cls, name):
 
 TABLE = {"C21": _wrap(Calendar, "calendar"), "C22": _wrap(Grid, "grid"), "C23": _wrap(Lang, "lang"), "C34": _wrap(F4, "f4"), "C19": _wrap(NumberInput, "numinput"), "C20": _wrap(NumberFormat, "numformat"), "C09": _wrap(Formula, "formula"), "C29": _wrap(ColAttrs, "colattrs"), "C30": _wrap(StylesFam, "styles"), "C11": _wrap(Tokens, "tokens"), "C08": _wrap(FiniteFam, "finite"), "C25": _wrap(XlsxFaultsFam, "xlsxfaults")}
 TABLE["C06"] = _wrap(ValueFam, "value")
+TABLE["C16"] = _wrap(ClipboardFam, "clipboard")
 _rc = _wrap(RecalcFam, "recalc")
 for _p in RecalcFam.PROPS:
     TABLE[_p] = _rc
